@@ -145,6 +145,15 @@ CLAIMED["C17"] = (
     "ones must decode exactly that many bytes, rejected ones must be reported as an error (spec->code)",
     "Exhaustive model checking of the coding round trip and of the size classification within the bounds plus conformance of the "
     "three real decoders on every case.", "3 C17", "")
+CLAIMED["C16"] = (
+    "TLA+ spec specs/http/Robust.tla (allowed outcomes of servicing per input class on two connections: NeverRaised, "
+    "SiblingServed) checked by TLC; real http.Server (WSGI), http.BareServer and http.Client driven over scripted sockets with "
+    "well formed messages, every named malformation in concrete variants, every truncation, token-level mutations of messages "
+    "generated from specs/http/Message.tla and random bytes, whole and byte by byte; every execution recorded as (connection, "
+    "class, outcome) events and validated in batch by RobustTrace.tla (code->spec): an event whose servicing raised, or a well "
+    "formed request on a clean sibling connection that is not served, is rejected",
+    "Model checking of the outcome rules plus trace validation of thousands of real server and client executions on malformed "
+    "and random input (fault_enumeration over the named malformation classes, whole and bytewise).", "3 C16", "")
 NA = {
  "C28": "pure value-fidelity of json/cbor2/msgpack + dataclass reflection: no state/transition structure for a TLA+ model to decide (DESIGN.md section 4)",
 }
